@@ -1,3 +1,3 @@
 From Coq Require Import Extraction ExtrOcamlBasic.
 From Glb Require Import Check.C09.
-Extraction "model.ml" check_case verdict_ok verdict_spec_ok.
+Extraction "model.ml" check_case verdict_ok verdict_spec_ok verdict_clean.
